@@ -180,6 +180,32 @@ def coverage_family():
         g = parse_simple(t, name='cov_' + n); g.meta['family'] = 'coverage'; out.append(g)
     return out
 
+# ---------------------------------------------------------------- error recovery x tree insertion family
+def recovery_family():
+    """constructs that can swallow garbage (option / loop) directly in front of every user of CstData::open_before
+    (node creation in an elided rule or in place, whole-rule creation, conditional elision, Pratt operator), the user
+    being reached from two call sites with different follow sets so that its inner loop has a smaller recovery set"""
+    pres = {'opt': '[A]', 'star': 'A*', 'plus': 'A+', 'optseq': '[A B]'}
+    users = {
+        'create_elided': ('u', 'u^: <1 B* 1>made C;'),
+        'create_inplace': ('u', 'u: <1 B* 1>made C;'),
+        'create_whole': ('u', 'u^: B* C [H >];'),
+        'cond_elide': ('u', 'u: B* C [H ^];'),
+        'pratt': ('u', 'u: u H u | u B | C;'),
+        'create_after_loop': ('u', 'u^: B* <1 C* 1>made H;'),
+    }
+    out = []
+    for pn, pre in pres.items():
+        for un, (ref_, rule) in users.items():
+            # x is called once (its follow {D} is in the recovery set of `pre`), u from two places (its loop only recovers at EOF)
+            txt = f'token A B C D E F G H P; start s; s: P x D | E {ref_} F G; x: {pre} {ref_} F; {rule}'
+            try:
+                g = parse_simple(txt, name=f'rec_{pn}_{un}')
+            except SyntaxError:
+                continue
+            g.meta['family'] = 'recovery'; out.append(g)
+    return out
+
 # ---------------------------------------------------------------- seeded random grammars
 TOKS = ['A', 'B', 'C', 'D', 'E']
 
